@@ -1,0 +1,10 @@
+//go:build verif
+
+package hkdf
+
+// Contracts for package hkdf, checked by /verif (govc). Comment-only file: it adds no declarations.
+
+//@ func Sha512(master, salt, info) (key, err)
+//@   trusted
+//@   pure
+//@   ensures err == nil ==> seq(key) == hkdf(seq(master), seq(salt), seq(info))
